@@ -254,6 +254,84 @@ Fixpoint no_deviation (s : smap) (ops : list op) : bool :=
   | o :: ops' => negb (deviating s o) && no_deviation (snd (step_spec true s o)) ops'
   end.
 
+(* ---- writers as handles ----
+   NewWriter returns an *os.File: the object exists (empty) as soon as the
+   writer is open, every Write appends to it, Close changes nothing any more;
+   a second Close and a Write after Close fail (file already closed).  Several
+   writers can be open at once.  Histories are DISCIPLINED: while a writer is
+   open on an object nothing else stores to that object (then "file offset"
+   and "end of the object" coincide, which is what `append` models). *)
+Definition append (m : fs) (p : path) (data : bytes) : bool * fs :=
+  match read m p with
+  | ROk c => write m p (c ++ data)
+  | _ => (false, m)
+  end.
+Definition spec_append (s : smap) (p : path) (data : bytes) : bool * smap :=
+  match sget p s with
+  | Some c => spec_write s p (c ++ data)
+  | None => (false, s)
+  end.
+Record handle := mkHandle { h_name : bytes; h_open : bool }.
+Inductive wop :=
+  | WPlain (o : op)
+  | WOpen (name : bytes)                 (* NewWriter; a handle is created only when it succeeds *)
+  | WWrite (h : nat) (data : bytes)      (* handles are numbered in the order they were opened *)
+  | WClose (h : nat).
+Inductive wres := WR (r : res) | WOk (ok : bool).
+Fixpoint set_closed (k : nat) (hs : list handle) : list handle :=
+  match hs, k with
+  | [], _ => []
+  | h :: hs', O => mkHandle (h_name h) false :: hs'
+  | h :: hs', S k' => h :: set_closed k' hs'
+  end.
+Definition step_w (st : fs * list handle) (o : wop) : wres * (fs * list handle) :=
+  let '(m, hs) := st in
+  match o with
+  | WPlain o' => let '(r, m') := step_fs m o' in (WR r, (m', hs))
+  | WOpen n => let '(ok, m') := write m (components n) [] in
+               (WOk ok, (m', if ok then hs ++ [mkHandle n true] else hs))
+  | WWrite k data =>
+      match nth_error hs k with
+      | Some h => if h_open h then let '(ok, m') := append m (components (h_name h)) data in (WOk ok, (m', hs))
+                  else (WOk false, (m, hs))
+      | None => (WOk false, (m, hs))
+      end
+  | WClose k =>
+      match nth_error hs k with
+      | Some h => (WOk (h_open h), (m, set_closed k hs))
+      | None => (WOk false, (m, hs))
+      end
+  end.
+Definition step_w_spec (strict : bool) (st : smap * list handle) (o : wop) : wres * (smap * list handle) :=
+  let '(s, hs) := st in
+  match o with
+  | WPlain o' => let '(r, s') := step_spec strict s o' in (WR r, (s', hs))
+  | WOpen n => let '(ok, s') := spec_write s (components n) [] in
+               (WOk ok, (s', if ok then hs ++ [mkHandle n true] else hs))
+  | WWrite k data =>
+      match nth_error hs k with
+      | Some h => if h_open h then let '(ok, s') := spec_append s (components (h_name h)) data in (WOk ok, (s', hs))
+                  else (WOk false, (s, hs))
+      | None => (WOk false, (s, hs))
+      end
+  | WClose k =>
+      match nth_error hs k with
+      | Some h => (WOk (h_open h), (s, set_closed k hs))
+      | None => (WOk false, (s, hs))
+      end
+  end.
+Fixpoint run_w (st : fs * list handle) (ops : list wop) : list wres * (fs * list handle) :=
+  match ops with
+  | [] => ([], st)
+  | o :: ops' => let '(r, st') := step_w st o in let '(rs, st'') := run_w st' ops' in (r :: rs, st'')
+  end.
+Fixpoint run_w_spec (strict : bool) (st : smap * list handle) (ops : list wop) : list wres * (smap * list handle) :=
+  match ops with
+  | [] => ([], st)
+  | o :: ops' => let '(r, st') := step_w_spec strict st o in
+                 let '(rs, st'') := run_w_spec strict st' ops' in (r :: rs, st'')
+  end.
+
 (* ---- listings and the caller's context ----
    FSBucket.Objects(ctx, prefix) walks the whole bucket before it returns and
    never consults ctx: the listing is complete whether or not the context is
